@@ -49,7 +49,7 @@ STUBS = ["file on disk -> io.BytesIO / io.StringIO handed to the real Stream obj
 # has been read: reading ANY non-empty FIXSRC file raises IndexError.  With the flag True the harness pre-allocates the
 # array with the shape the writer used (what a caller has to do by hand today) so that framing, record order and the
 # data are still checked.
-KNOWN_DEFECT_fixsrc_reader_never_allocates = True
+KNOWN_DEFECT_fixsrc_reader_never_allocates = False  # repaired in /repo (fix: da32f0b)
 
 
 # ---------------------------------------------------------------------------------------------------------------------
@@ -90,6 +90,7 @@ class Cycle:
         self.binary = binary
         self.left = -1
         self.werr = self.rerr = self.w2err = None
+        self._write, self._read = write, read
         try:
             self.raw = write(data, binary)
         except Exception as e:  # noqa: BLE001 (every exception is a refusal of a well-formed container)
@@ -122,6 +123,14 @@ class Cycle:
         ctx.check("reader consumes the whole file", self.left == 0)
         ctx.check("writing what was read reproduces the file byte for byte",
                   self.w2err is None and self.raw2 == self.raw)
+        if self.w2err is None and self.raw2 != self.raw:
+            # (only reached inside a recorded finding) whatever the first pass normalised, a second pass is stable
+            try:
+                back2, used2 = self._read(self.raw2, self.binary)
+                ok = used2 == len(self.raw2) and self._write(back2, self.binary) == self.raw2
+            except Exception:  # noqa: BLE001
+                ok = False
+            ctx.check("the re-written file is itself reproduced byte for byte by a second read and write", ok)
         return True
 
 
@@ -508,14 +517,14 @@ def dense(m):
 # nothing looks at it, instead of on _GamisoIO, so a GAMISO library labelled "GAMISO" comes back labelled "ISOTXS" and is
 # re-written with a different first record.  With the flag True the GAMISO harness instances label their library
 # "ISOTXS" (the only label that survives); with False they use "GAMISO" and the label / byte-for-byte obligations fail.
-KNOWN_DEFECT_gamiso_label_becomes_isotxs = True
+KNOWN_DEFECT_gamiso_label_becomes_isotxs = False  # recorded in known_findings.jsonl
 
 # _IsotxsNuclideIO._rw7DRecord can write scatter matrices split into NSBLOK > 1 sub-blocks, but cannot read them: the
 # first sub-block is turned into a csr_matrix of shape (ng, ng) from only its own rows (ValueError "index pointer size
 # ... should be ..."), and the following sub-blocks would be taken for a write pass because the matrix is no longer
 # None.  Every library with subblockingControl >= 2 and >= 2 groups is written but not read back.  With the flag True
 # the layout harness keeps NSBLOK == 1.
-KNOWN_DEFECT_isotxs_subblocked_scatter_unreadable = True
+KNOWN_DEFECT_isotxs_subblocked_scatter_unreadable = False  # recorded in known_findings.jsonl
 
 # which attribute holds the scatter matrix of a block, by the block's type flag IDSCT (constants at the top of
 # isotxs.py: 000+NN total, 100+NN elastic, 200+NN inelastic, 300+NN n2n; armi keeps order NN=0 of each and elastic P1 in
@@ -657,7 +666,11 @@ def snapshot_xs_library(fmt, lib):
 def xs_library_obligations(ctx, fmt, want, back, canary_hit=False):
     fmdB, _, _ = _xs_parts(fmt, back)
     ok = True
+    if "label" in want["file"]:
+        ctx.check("file label reads back", fmdB["label"] == want["file"]["label"])
     for k, w in want["file"].items():
+        if k == "label":
+            continue
         r = fmdB[k]
         if isinstance(w, str) or isinstance(w, (int, np.integer)):
             ok = ok and r == w
@@ -839,12 +852,12 @@ def isotxs_principal_xs_flags_roundtrip(ctx, fmt, ng, ltot, ltrn, binary):
 # _PmatrxNuclideIO._rwReactionXS calls record.rwList(activationXS[xsNum], self._numNeutronGroups) without the element
 # type: TypeError (reported as OSError) for every nuclide with numberNeutronXS > 0, reading and writing alike.  With the
 # flag True the harness keeps numberNeutronXS == 0.
-KNOWN_DEFECT_pmatrx_activation_xs_records = True
+KNOWN_DEFECT_pmatrx_activation_xs_records = False  # repaired in /repo (fix: a265f6a)
 
 # _PmatrxNuclideIO._getProductionMatrix(order >= 3) indexes the dict nOrderProductionMatrix, which is empty on a freshly
 # read nuclide: KeyError (reported as OSError).  A library with maxScatteringOrder >= 3 is written but cannot be read
 # back.  With the flag True the harness keeps the order <= 2.
-KNOWN_DEFECT_pmatrx_order3_production_unreadable = True
+KNOWN_DEFECT_pmatrx_order3_production_unreadable = False  # recorded in known_findings.jsonl
 
 
 def _pmatrx_write(lib, binary):
@@ -969,7 +982,7 @@ def pmatrx_roundtrip_for_every_header(ctx, binary):
 # AsciiRecordReader never advances byteCount (its rwInt/rwFloat/rwString do not count), so dlayxs.readAscii asks for as
 # many 4-character words as the whole record is long and runs off the record: BufferError for every ASCII DLAYXS file
 # written by dlayxs.writeAscii.  With the flag True only the binary encoding is exercised.
-KNOWN_DEFECT_dlayxs_ascii_unreadable = True
+KNOWN_DEFECT_dlayxs_ascii_unreadable = False  # recorded in known_findings.jsonl
 
 
 def _dlayxs_write(d, binary):
@@ -1057,14 +1070,14 @@ def dlayxs_roundtrip_for_every_header(ctx, binary):
 
 # _CompxsIO._rw2DRecord passes the shape as ONE tuple to rwMatrix(contents, *shape): range(tuple) -> TypeError
 # (reported as OSError), reading and writing alike, for every library with fileWideChiFlag > 0 ...
-KNOWN_DEFECT_compxs_file_wide_chi = True
+KNOWN_DEFECT_compxs_file_wide_chi = False  # repaired in /repo (fix: 32e0321)
 # ... and, in _rwDelayedProperties, for every library with numDelayedFam > 0 (delayedChi).
-KNOWN_DEFECT_compxs_delayed_families = True
+KNOWN_DEFECT_compxs_delayed_families = False  # repaired in /repo (fix: 32e0321)
 # nuclearFileMetadata.REGIONXS_POWER_CONVERT_DIRECTIONAL_DIFF lists "d1Multiplier" twice and "d2Multiplier" never: the
 # second-dimension diffusion-coefficient multiplier the module documentation promises (A2 of the DIF3D 4D record) is
 # neither written nor read; its slot in the record carries d1Multiplier a second time, and on reading a DIF3D-made file
 # the A2 value overwrites d1Multiplier.  With the flag True the harness does not require d2Multiplier back.
-KNOWN_DEFECT_compxs_d2Multiplier_not_stored = True
+KNOWN_DEFECT_compxs_d2Multiplier_not_stored = False  # repaired in /repo (fix: bd1a02e)
 
 _COMPXS_DIFF = ["powerConvMult", "d1Multiplier", "d1Additive", "d2Multiplier", "d2Additive", "d3Multiplier", "d3Additive"]
 
